@@ -17,6 +17,7 @@ import (
 	"sort"
 	"strings"
 	"sync"
+	"sync/atomic"
 
 	"verif/gen"
 )
@@ -114,6 +115,8 @@ type PropDef struct {
 	Assumptions []string
 	Run         func(c *Ctx)
 }
+
+var curCase atomic.Int64
 
 var registry = map[string]*PropDef{}
 
@@ -215,7 +218,8 @@ func main() {
 		}
 		w = f
 	}
-	emit := func(r record) {
+	var emit func(r record)
+	emit = func(r record) {
 		b, err := json.Marshal(r)
 		if err != nil {
 			b, _ = json.Marshal(record{T: r.T, Case: r.Case, Variant: r.Variant, Viols: []Violation{{Detector: "harness.marshal", Msg: err.Error()}}})
@@ -223,7 +227,22 @@ func main() {
 		w.Write(append(b, '\n'))
 	}
 	debug.SetPanicOnFault(true)
+	var emitMu sync.Mutex
+	emit0 := emit
+	emit = func(r record) {
+		emitMu.Lock()
+		defer emitMu.Unlock()
+		emit0(r)
+	}
+	wd := startWatchdog(*tier, func(kind string, cpu, wall float64, stack string) {
+		emit(record{T: "hang", Case: int(curCase.Load()), Variant: *variant,
+			Viols: []Violation{{Detector: "hang", Keys: map[string]any{"kind": kind, "func": topRepoFrameAny(stack)},
+				Msg: fmt.Sprintf("case did not finish: %s after %.0f CPU-seconds / %.0f s wall\n%s", kind, cpu, wall, trimStack(stack))}}})
+		os.Stderr.WriteString(stack)
+		os.Exit(3)
+	})
 	for i := *from; i < *to; i++ {
+		wd.begin(i)
 		c := &Ctx{Prop: p.ID, Tier: *tier, Seed: *seed, Case: i, Variant: *variant,
 			R: gen.Sub(*seed, p.ID, i), desc: map[string]any{}, obs: map[string]int64{}, dig: map[string]string{}}
 		emit(record{T: "begin", Case: i, Variant: *variant})
